@@ -141,3 +141,18 @@ func (c *Ctx) truncFamily(prefix string) {
 		c.ErrHandled(prefix+"/errors", td, p.PlainCalls("os.(*File).Truncate", "os.(*File).Sync"), p.PlainCalls("litefs.(*DB).resetDatabasePageChecksumsAfter"), 2, "a failed resize or sync is returned and the checksum cache is left alone", "")
 		c.OnlyGuards(prefix+"/cache-reset-unconditional", td, p.PlainCalls("litefs.(*DB).resetDatabasePageChecksumsAfter"), gs(G(`\(nil == os\.\(\*File\)\.(Truncate|Sync)\(.*\)\)|\(os\.\(\*File\)\.(Truncate|Sync)\(.*\) == nil\)`, true)), 1, "the cached checksums beyond the new size are reset whenever the resize succeeded - under no further condition", "in WAL mode the logical page count was lowered by the commit long before the checkpoint cuts the file: a reset that only runs 'when the database shrinks' never runs")
 }
+
+// walCacheFamily: every function that empties, removes or restarts the WAL
+// file resets both in-memory WAL tables (frame offsets and page checksums)
+// before it reports success. Readers (snapshot, export, ReadWALPageAt-style
+// lookups) trust these tables to point into the current WAL.
+func (c *Ctx) walCacheFamily(prefix string) {
+	p := c.P
+	for _, fn := range []string{"litefs.(*DB).TruncateWAL", "litefs.(*DB).RemoveWAL", "litefs.(*DB).Drop", "litefs.(*DB).writeWALHeader"} {
+		short := fn[len("litefs.(*DB)."):]
+		for _, f := range []string{"frameOffsets", "chksums"} {
+			c.Before(prefix+"/wal-cache-reset/"+short+"/"+f, fn, p.SuccessReturn, p.Writes("litefs.DB.wal."+f), 1,
+				short+": every successful exit has replaced DB.wal."+f+" by a fresh table", "a stale frame-offset or checksum table points export, snapshot and checksum code at offsets of a WAL that no longer holds those frames")
+		}
+	}
+}
